@@ -63,8 +63,32 @@ def same_group_twice(g):
     return doc, insts, "same-timed-group-twice"
 
 
+def all_optional(ctx, n):
+    """a rule all of whose items may be absent (`min: 0`, `times: 0`) is found on every listing, in every way of asking:
+    the run of length 0 is within the bounds"""
+    g, rep = ctx.g, ctx.report
+    for _ in range(n):
+        a, b = g.r.sample(["nop", "int3", "hlt", "cld"], 2)
+        item = g.pick([{a: {"times": {"min": 0, "max": g.int(1, 3)}}}, {"$or": [a, b], "times": {"min": 0, "max": 2}},
+                       {"$or": [a, b], "times": 0}, {a: {"times": 0}}])
+        doc = {"pattern": [item] + ([{b: {"times": {"min": 0, "max": 1}}}] if g.chance(0.4) else [])}
+        insts = [("8000", "push", ["%rbp"]), ("8001", g.pick(["mov", a]), ["%rsp", "%rbp"] if g.chance(0.7) else []), ("8004", "ret", [])]
+        o = patdiff.observe(ctx, doc, insts, modes=("bool", "all", "first"))
+        patdiff.correspondence(ctx, o)
+        got = {k: o.get(k) for k in ("impl_bool", "impl_all", "impl_first")}
+        ok = (got["impl_bool"] == ("ok", True) and got["impl_all"] is not None and got["impl_all"][0] == "ok" and len(got["impl_all"][1]) > 0
+              and got["impl_first"] is not None and got["impl_first"][0] == "ok" and len(got["impl_first"][1]) == 1)
+        if not ok:
+            rep.violate("absent-optional-item-not-found", patdiff.case_of(o), "found in every mode (the empty run is within the bounds)", got,
+                        model_agrees_with_spec=None)
+        rep.case(patdiff.case_of(o), True, tags=["all-items-optional"])
+        if rep.has_new() and ctx.tier == "thorough":
+            return
+
+
 def run(ctx, factor):
     rep = ctx.report
+    all_optional(ctx, ctx.budget(16, 300) * factor)
     for _ in range(ctx.budget(30, 600) * factor):
         doc, insts, tag = same_group_twice(ctx.g)
         o = patdiff.observe(ctx, doc, insts, modes=("bool", "all", "first"))
